@@ -162,13 +162,22 @@ def run():
             ref = ThresholdCounter(thr)
             for k in seq:
                 ref.add(k)
-            for kind in ('mapping', 'kwargs', 'iterable', 'iterator', 'mapping+kwargs'):
+            for kind in ('mapping', 'kwargs', 'iterable', 'iterator', 'mapping+kwargs', 'UserDict', 'MappingProxyType', 'ChainMap'):
                 tc = ThresholdCounter(thr)
                 try:
                     if kind == 'mapping':
                         tc.update(dict(mapping))
                     elif kind == 'kwargs':
                         tc.update(None, **mapping)
+                    elif kind == 'UserDict':
+                        import collections
+                        tc.update(collections.UserDict(mapping))
+                    elif kind == 'MappingProxyType':
+                        import types
+                        tc.update(types.MappingProxyType(dict(mapping)))
+                    elif kind == 'ChainMap':
+                        import collections
+                        tc.update(collections.ChainMap(dict(mapping)))
                     elif kind == 'iterable':
                         tc.update(list(seq))
                     elif kind == 'iterator':
@@ -185,9 +194,12 @@ def run():
                     H.fail('update_equals_adds', 'ThresholdCounter.update', kind + ' argument',
                            dict(threshold=thr, mapping=mapping),
                            'total %r items %r; expected total %r items %r' % (tc.total, tc.items(), n, ref.items()),
-                           HDR + 'tc = ThresholdCounter(0.4)\ntc.update({"a": 3})\n'
-                           'assert tc.total == 3 and tc["a"] == 3, (tc.total, tc.items())\n'
-                           if kind == 'mapping' else None)
+                           HDR + 'import collections, types\ntc = ThresholdCounter(0.4)\ntc.update(%s)\n'
+                           'assert tc.total == 3 and tc["a"] == 3, (tc.total, tc.items())\n' % {
+                               'mapping': '{"a": 3}', 'UserDict': 'collections.UserDict({"a": 3})',
+                               'MappingProxyType': 'types.MappingProxyType({"a": 3})',
+                               'ChainMap': 'collections.ChainMap({"a": 3})'}.get(kind)
+                           if kind in ('mapping', 'UserDict', 'MappingProxyType', 'ChainMap') else None)
 
     # adversarial multi-level stream for the size clause (w additions per bucket; keys entering in
     # bucket b-j with count j+2 survive compaction b)
